@@ -42,7 +42,7 @@ def run(tier, seed):
                 pairs.append({"a": (j, "first"), "b": j, "rule": "identity", "scenario": sc, "baseline_may_fail": True,
                               "label": {"crop": sc["crop"]["name"], "irr": (sc.get("irr") or {}).get("method", 0), "mode": mode, "n": n,
                                         "kw": sorted((sc["crop"].get("kw") or {}).keys()), "co2": sc.get("co2") is not None, "gw": sc.get("gw") is not None}})
-    return equivbase.equiv_check(PROP, tier, seed, jobs, pairs, mcs=[("Histories.tla", "MC_Hist.cfg", 300)],
+    return equivbase.equiv_check(PROP, tier, seed, jobs, pairs, mcs=[("Histories.tla", "MC_Hist.cfg", 900)],
                                  rule_text="C11: a run followed by n re-runs of the same model object, or n new models built from the same user objects; "
                                            "the last run's tables must be identical to the first run's (an exception in a later run is a violation)")
 
